@@ -322,6 +322,15 @@ def main():
     for mode in ("one-file", "p-each"):
         cases.append((["@@\nvar x expression\n@@\n-trace(x)\n+x\n", "@@\nvar x expression\n@@\n-import \"net/url\"\n\n-url.Parse(x)\n+myParse(x)\n"],
                       [{"kind": "reproduced-shadow"}, {"kind": "reproduced-shadow"}], OBJ_SRC, mode, None))
+    # a name that one change declares as a metavariable is plain code in the next (each change has its own declarations)
+    for chs, src in (((["@@\nvar x expression\n@@\n-foo(x)\n+bar(x)\n", "@@\n@@\n-x.Close()\n+x.Shutdown()\n"]),
+                      "package p\n\nfunc h() {\n\tfoo(1)\n\tx.Close()\n\ty.Close()\n\tz.w.Close()\n}\n"),
+                     ((["@@\nvar f identifier\n@@\n-f(1)\n+f(2)\n", "@@\nvar g identifier\n@@\n-f(g)\n+f(g, g)\n"]),
+                      "package p\n\nfunc h() {\n\ta(1)\n\tf(b)\n\tq(b)\n\tf(3)\n}\n"),
+                     ((["@@\nvar v identifier\nvar e expression\n@@\n-v := e\n+v := wrap(e)\n", "@@\n@@\n-use(v, e)\n+used(v)\n", "@@\nvar e expression\n@@\n-keep(e, v)\n+kept(e)\n"]),
+                      "package p\n\nfunc h() {\n\tn := 1\n\tuse(v, e)\n\tuse(n, 2)\n\tkeep(3, v)\n\tkeep(4, n)\n}\n")):
+        for mode in ("one-file", "p-each", "stdin"):
+            cases.append((chs, [{"kind": "name-reused"} for _ in chs], src, mode, None))
     outs = vlib.pmap(run_case, cases)
     # syntax-tree digests, parentheses elided
     srcs = []
@@ -353,6 +362,9 @@ def main():
                 ck.violation("step %d of the chain fails (%s) but the combined run exits 0" % (failed[0], o["steps"][failed[0]]["stderr"][:80]), rep)
             elif o["comb"] != src.encode():
                 ck.violation("step %d of the chain fails; the combined run reports a failure but changed the file" % failed[0], rep)
+            elif not mo["skipped"]:
+                # ... and so must the library (patch.File.Apply), whatever the changes after the failing one do
+                enginecheck.report(ck, "c09#%d" % k, pairs[k], mo, "none", {"mode": mode})
             continue
         if o["rc"] != 0:
             ck.tally("chain_outcome", "combined fails only")
